@@ -99,6 +99,23 @@ def exchange(rec, k, header_t, body, table):
     s.close()
 
 
+def overlapped(rec, k, header_t, body_a, body_b, table):
+    """two sessions in flight at once: A has its response header and half its body when B runs from start to finish (B's close may roll the file over), then A completes"""
+    a = rec.new_http_recorder_session()
+    if table is not None: a._url_table = table
+    req = Request('http://example.com/slow%d' % k); req.address = ('127.0.0.1', 80); req.prepare_for_send()
+    a.begin_request(req); a.request_data(req.to_bytes()); a.end_request(req)
+    wire = header_t % len(body_a)
+    resp = Response(); resp.parse(wire); resp.request = req
+    a.response_data(wire); a.begin_response(resp)
+    half = len(body_a) // 2
+    a.response_data(body_a[:half])
+    exchange(rec, 100 + k, header_t, body_b, table)
+    a.response_data(body_a[half:])
+    a.end_response(resp)
+    a.close()
+
+
 def run_case(cfg, rnd):
     tmp = tempfile.mkdtemp(prefix='pyvc-c05-'); problems = []
     try:
@@ -111,6 +128,8 @@ def run_case(cfg, rnd):
             for k in range(3):
                 body = bytes(rnd.getrandbits(8) for _ in range(rnd.choice([0, 7, 2500])))
                 exchange(rec, k if not cfg['revisit'] else 0, HEADERS[(k + run) % len(HEADERS)], body if not cfg['revisit'] else b'same body', table)
+            # concurrent sessions (the crawler runs several): every record must still point at the warcinfo record of the file it ends up in
+            overlapped(rec, run, HEADERS[run % len(HEADERS)], bytes(rnd.getrandbits(8) for _ in range(2600)), bytes(rnd.getrandbits(8) for _ in range(2600)), None)
             rec.close()
         ids = set()
         for fn in sorted(os.listdir(tmp)):
@@ -141,7 +160,7 @@ def main():
                     if hit['what'] not in reported: reported.append(hit['what'])
                 elif len(bad) < 40: bad.append({'config': cfg, 'problem': p})
     doc = {'label': 'bounded', 'functions': ['wpull/warc/recorder.py (WARCRecorder, HTTPWARCRecorderSession)', 'wpull/warc/format.py:WARCRecord'], 'cases': n, 'distinct_nontrivial': n,
-           'bound': '%d recorder configurations x 3 exchanges (4 header formattings, 3 body sizes) x 1-2 runs' % len(confs), 'rule': 'one case = one configuration and history; files read back by a strict reader',
+           'bound': '%d recorder configurations x 3 sequential exchanges + 2 overlapping sessions (4 header formattings, 3 body sizes) x 1-2 runs' % len(confs), 'rule': 'one case = one configuration and history; files read back by a strict reader',
            'result': 'no violation' if not bad else '%d problems' % len(bad), 'violations': bad, 'known_findings': reported, 'samples': confs[:3], 'wall_s': round(time.time() - t0, 1)}
     json.dump(doc, open(a.out, 'w'), indent=1, default=str)
     return 1 if bad else 0
